@@ -93,15 +93,36 @@ PROPS["C13"] = dict(
     assumptions=["A-iter: SeqIter::position = first index satisfying the predicate", "A-clone: derived Clone returns an equal value"],
 )
 
+PROPS["C15"] = dict(
+    slices=["transition"],
+    witness_family="trans",
+    level_text="bookkeeping half: Verus proves that every rotation-cycle operation of solution/src/transition (update_vehicle, add_vehicle_to_own_cycle, remove_vehicle, add_vehicle_at_the_end, move_vehicle, replace_cycle, three_opt) preserves the representation invariant written from the property (cycles duplicate-free and pairwise disjoint, lookup and empty-cycle list match the cycles, every cycle counter and both totals equal their recomputed values); 'optimisation never worsens' is a property of rapid_solve's acceptance rule and is assumed; Transition::one_cluster_per_maintenance and the 3-opt index ranges are not under contract in this revision",
+    level_note="trusted: vstd, A-im (im::HashMap shim with Map view), SeqIter shim incl. filter, Option::copied / Vec::extend / Vec::retain specs, stubs Tour::{maintenance_counter,start_depot,end_depot}, TransitionCycle::iter; caller-side: the vehicle passed to update_vehicle/remove_vehicle is not a key of updated_tours",
+    scope="solution/src/transition.rs (get_successor_of), transition/transition_cycle.rs, transition/modifications.rs",
+    assumptions=A_COMMON + [
+        "A-im: im::HashMap behaves as a finite map (new/get/insert/remove/clone/contains_key)",
+        "A-iter incl. filter (mask form), chain, once, position, collect",
+        "caller-side: update_transitions_and_violation_fast never passes the same vehicle twice (vehicle not in updated_tours)",
+        "magnitudes: |tour counter| <= 2^40, at most 2^17 vehicles per type",
+        "the acceptance rule of rapid_solve::LocalSearchSolver (never worsens) is assumed, not proved",
+    ],
+)
+PROPS["C05"] = dict(
+    slices=["transition", "tour_mod"],
+    witness_family="trans",
+    level_text="building blocks only: Verus proves that the rotation cycles partition the vehicles they were given under every cycle operation (Transition::wf), that get_successor_of returns the cyclic successor cycle[(pos+1) % len], and that Tour::replace_end_depot changes exactly the end depot of a tour; the wiring loop reassign_end_depots_consistent_with_transitions itself and the JSON emission are NOT under contract in this revision",
+    level_note="trusted base of C15 and C09; the loop that applies get_successor_of / replace_end_depot to every vehicle is read, not verified",
+    scope="Transition partition invariant, get_successor_of, Tour::replace_end_depot",
+    assumptions=A_COMMON + ["reassign_end_depots_consistent_with_transitions (schedule/modifications.rs:823-875) applies these building blocks to every vehicle: not under contract", "fleet_to_json prints these cycles and depots (A-json)"],
+)
+
 NOT_APPLICABLE = {
     "C04": "objective truth needs a whole-history invariant over ~900 lines of persistent-map code plus rapid_solve's dyn Objective; no contract within reach of Verus/Kani carries it",
-    "C05": "pending: transition slices not built yet in this revision",
     "C06": "whole-pipeline termination and panic freedom through rayon and the external network simplex: liveness over histories, no thread support in either verifier; per-function totality is reported under the owning property",
     "C07": "coverage equals an optimality statement about the external network-simplex solution and the search trajectory; its per-function lemmas are proved under C02/C17",
     "C08": "the acceptance rule and fixpoint live in rapid_solve (rayon, channels, dyn objects); trajectory property",
     "C11": "neighbourhood candidates are compositions of schedule-level modifications generated under rayon; outside per-function contracts",
     "C14": "optimality of the circulation returned by rs_graph::mcf::network_simplex; the network construction is a 230-line loop over HashMaps with I/O",
-    "C15": "pending: transition slices not built yet in this revision",
     "C16": "pending: wiring slice not built yet in this revision",
     "C18": "HTTP concurrency and fault isolation across tokio tasks: no thread support in Verus (without rewriting to its permission types) or Kani",
 }
